@@ -80,6 +80,14 @@ class LpPacket(TlvModel):
     lp_packet = ModelField(LpTypeNumber.LP_PACKET, LpPacketValue)
 
 
+# Header fields that may occur once (Ack is repeatable; unknown fields are skipped however often they occur)
+_SINGLE_HEADER_FIELDS = frozenset([
+    LpTypeNumber.SEQUENCE, LpTypeNumber.FRAG_INDEX, LpTypeNumber.FRAG_COUNT, LpTypeNumber.HOP_COUNT,
+    LpTypeNumber.PIT_TOKEN, LpTypeNumber.NACK, LpTypeNumber.INCOMING_FACE_ID, LpTypeNumber.NEXT_HOP_FACE_ID,
+    LpTypeNumber.CACHE_POLICY, LpTypeNumber.CONGESTION_MARK, LpTypeNumber.TX_SEQUENCE, LpTypeNumber.NON_DISCOVERY,
+    LpTypeNumber.PREFIX_ANNOUNCEMENT])
+
+
 def parse_lp_packet(wire: BinaryStr, with_tl: bool = True) -> (int | None, BinaryStr | None):
     """
     Parse an LpPacket, return NackReason (if exists) and the fragment.
@@ -121,8 +129,10 @@ def parse_lp_packet_v2(wire: BinaryStr, with_tl: bool = True) -> LpPacketValue:
         typ, size_typ = parse_tl_num(wire, offset)
         length, size_len = parse_tl_num(wire, offset + size_typ)
         offset += size_typ + size_len + length
-        if last_type == LpTypeNumber.FRAGMENT or (typ != LpTypeNumber.FRAGMENT and typ <= last_type):
+        if last_type == LpTypeNumber.FRAGMENT or (typ != LpTypeNumber.FRAGMENT and typ < last_type):
             raise DecodeError('NDNLP header fields are out of order')
+        if typ == last_type and typ in _SINGLE_HEADER_FIELDS:
+            raise DecodeError('NDNLP header field is repeated')
         last_type = typ
     markers = {}
     ret = LpPacketValue.parse(wire, markers, ignore_critical=True)
